@@ -2,7 +2,7 @@
    the three spellings) and index steps [digits] returns exactly the value reached by following the names and
    indexes through the nested objects and arrays (with that location in accessor mode), and nothing when a
    name or index is missing on the way. *)
-From JP Require Import Peg Grammar Slice Text Tree Actions Json Eval WF Spec SortFacts EvalInv1 EvalInv4 EvalTop EndToEnd Codec KeyDefs KeyParse IdxParse WildParse RecParse ChainParse.
+From JP Require Import Peg Grammar Slice Text Tree Actions Json Eval WF Spec SortFacts EvalInv1 EvalInv4 EvalTop EndToEnd Codec KeyDefs KeyParse IdxParse SliceParse WildParse RecParse ChainParse.
 From Coq Require Import Lia.
 Open Scope list_scope.
 
@@ -10,6 +10,7 @@ Open Scope list_scope.
 Definition nav (v : value) (s : kstep) : option value :=
   match s with
   | SIdx ds => match v with VArr xs => nth_value xs (step_idx ds) | _ => None end
+  | SWild _ | SSlice _ _ _ => None
   | _ => match v with VObj m => lookup m (step_key s) | _ => None end
   end.
 Fixpoint nav_chain (v : value) (steps : list kstep) : option value :=
@@ -18,9 +19,13 @@ Fixpoint nav_chain (v : value) (steps : list kstep) : option value :=
   | s :: r => match nav v s with Some x => nav_chain x r | None => None end
   end.
 Definition step_loc (s : kstep) : pstep := match s with SIdx ds => PIdx (step_idx ds) | _ => PKey (step_key s) end.
+Definition multi_step (s : kstep) : bool := match s with SWild _ | SSlice _ _ _ => true | _ => false end.
 
 (* the values one step reaches from a value at a location: a name or an index reaches at most one, a wildcard all the
    members of an object in ascending key order, or all the elements of an array in index order *)
+(* a slice bound as Python sees it: None when omitted *)
+Definition bopt (t : list N) : option Z := match t with [] => None | _ :: _ => Some (step_idx t) end.
+
 Definition nav1 (s : kstep) (lv : list pstep * value) : list (list pstep * value) :=
   match s with
   | SWild _ => match snd lv with
@@ -28,6 +33,12 @@ Definition nav1 (s : kstep) (lv : list pstep * value) : list (list pstep * value
                | VArr xs => map (fun iv => (fst lv ++ [PIdx (fst iv)], snd iv)) (index_list xs 0)
                | _ => []
                end
+  | SSlice a b c0 =>
+      match snd lv with
+      | VArr xs => flat_map (fun i => match nth_value xs i with Some x => [(fst lv ++ [PIdx i], x)] | None => [] end)
+                            (py_slice (bopt a) (bopt b) (match c0 with Some t => bopt t | None => None end) (Z.of_nat (List.length xs)))
+      | _ => []
+      end
   | _ => match nav (snd lv) s with Some x => [(fst lv ++ [step_loc s], x)] | None => [] end
   end.
 (* `..step`: the step applied to every container below (and including) the value, in pre-order *)
@@ -51,7 +62,7 @@ Lemma flat_map_single {A B} (f : A -> B) l : flat_map (fun x => [f x]) l = map f
 Proof. induction l as [|a l IH]; cbn [flat_map map app]; [reflexivity|]. rewrite IH. reflexivity. Qed.
 
 (* without wildcards a chain reaches at most one value: the one nav_chain finds *)
-Lemma nav_all_single : forall steps (p : list pstep) v, existsb (fun s => match s with SWild _ => true | _ => false end) steps = false ->
+Lemma nav_all_single : forall steps (p : list pstep) v, existsb multi_step steps = false ->
   nav_all (map RPlain steps) (p, v) = match nav_chain v steps with Some x => [(p ++ map step_loc steps, x)] | None => [] end.
 Proof.
   induction steps as [|s r IH]; intros p v Hw; cbn [nav_all nav_chain map nav1r].
@@ -61,19 +72,19 @@ Proof.
     rewrite E. destruct (nav v s) as [x|]; [|reflexivity]. cbn [flat_map]. rewrite app_nil_r, IH by exact H2. rewrite <- app_assoc. reflexivity.
 Qed.
 
-Lemma containers_some : forall v p, Forall (fun cu => exists l, fst cu = Some l) (containers (Some p) v).
+Lemma containers_some : forall v p, small v -> Forall (fun cu => (exists l, fst cu = Some l) /\ small (snd cu)) (containers (Some p) v).
 Proof.
-  induction v as [|b|x|s x|s|xs IH|m IH|t i s] using value_ind_strong; intros p; [constructor|constructor|constructor|constructor|constructor| | |constructor].
-  - rewrite containers_arr. constructor; [exists p; reflexivity|].
+  induction v as [|b|x|s x|s|xs IH|m IH|t i s] using value_ind_strong; intros p Hsm; [constructor|constructor|constructor|constructor|constructor| | |constructor].
+  - rewrite containers_arr. constructor; [split; [exists p; reflexivity|exact Hsm]|].
     apply Forall_forall. intros cu Hin. apply in_flat_map in Hin. destruct Hin as [[i x] [Hix Hcu]]. cbn [fst snd ext_loc] in Hcu.
     assert (Hx : In x xs).
     { clear -Hix. revert Hix. generalize 0%Z. induction xs as [|y ys IHy]; intros z Hix; [contradiction|].
       cbn [index_list] in Hix. destruct Hix as [E|Hix]; [inversion E; left; reflexivity|right; exact (IHy _ Hix)]. }
-    rewrite Forall_forall in IH. pose proof (IH x Hx (p ++ [PIdx i])) as H. rewrite Forall_forall in H. exact (H cu Hcu).
-  - rewrite containers_obj. constructor; [exists p; reflexivity|].
+    rewrite Forall_forall in IH. pose proof (IH x Hx (p ++ [PIdx i]) (small_arr_in xs x Hsm Hx)) as H. rewrite Forall_forall in H. exact (H cu Hcu).
+  - rewrite containers_obj. constructor; [split; [exists p; reflexivity|exact Hsm]|].
     apply Forall_forall. intros cu Hin. apply in_flat_map in Hin. destruct Hin as [k [_ Hcu]].
     destruct (lookup m k) as [x|] eqn:El; [|contradiction]. cbn [ext_loc] in Hcu.
-    apply lookup_some_in in El. rewrite Forall_forall in IH. pose proof (IH (k, x) El (p ++ [PKey k])) as H. cbn [snd] in H.
+    pose proof (small_obj_lookup m k x Hsm El) as Hsx. apply lookup_some_in in El. rewrite Forall_forall in IH. pose proof (IH (k, x) El (p ++ [PKey k]) Hsx) as H. cbn [snd] in H.
     rewrite Forall_forall in H. exact (H cu Hcu).
 Qed.
 Lemma flat_map_ext_in' {A B} (f g : A -> list B) l : (forall a, In a l -> f a = g a) -> flat_map f l = flat_map g l.
@@ -127,10 +138,10 @@ Section ChainAddr.
     end.
 
   (* the specification of one step: navigate, then go on from every value reached *)
-  Lemma sp_step s b next root p v : step_ok s = true ->
+  Lemma sp_step s b next root p v : step_ok s = true -> small v ->
     sp (Node (step_kind s) b next) root (Some p, v) = flat_map (fwd b next root) (nav1 s (p, v)).
   Proof.
-    intros Hs. destruct s as [q k|k|ds|d].
+    intros Hs Hsm. destruct s as [q k|k|ds|d|sa sb sc].
     - cbn [step_kind nav1 nav step_loc fst snd]. cbn [Spec.sp snd fst]. destruct v; try reflexivity.
       destruct (lookup m (step_key (SBr q k))); [|reflexivity]. cbn [flat_map fwd fst snd ext_loc]. rewrite app_nil_r. destruct next; reflexivity.
     - cbn [step_kind nav1 nav step_loc fst snd]. cbn [Spec.sp snd fst]. destruct v; try reflexivity.
@@ -147,6 +158,50 @@ Section ChainAddr.
       + rewrite flat_map_map'. apply flat_map_ext'. intros [i x]. cbn [fst snd fwd ext_loc]. destruct next; reflexivity.
       + rewrite flat_map_flat_map. apply flat_map_ext'. intros key. destruct (lookup m key); [|reflexivity].
         cbn [flat_map fwd fst snd ext_loc]. rewrite app_nil_r. destruct next; reflexivity.
+    - cbn [step_kind nav1 fst snd]. cbn [Spec.sp snd fst]. destruct v; try reflexivity.
+      cbn [flat_map]. rewrite app_nil_r.
+      cbn [step_ok] in Hs. apply andb_true_iff in Hs. destruct Hs as [Hs Hc]. apply andb_true_iff in Hs. destruct Hs as [Hs Hb]. apply andb_true_iff in Hs. destruct Hs as [_ Ha].
+      assert (Hin : forall t, atoi_ok t = true -> in64 (number (bound_idx t))).
+      { intros t Ht. destruct t as [|c1 r1]; [cbn; unfold in64, two63; lia|]. cbn [bound_idx number]. unfold step_idx. cbn [atoi_ok] in Ht.
+        destruct (atoi (c1 :: r1)) as [z|] eqn:Ez; [|discriminate Ht].
+        pose proof (StackActs.atoi_in64 _ _ Ez) as Hz. unfold in64b in Hz. apply andb_true_iff in Hz. destruct Hz as [Z1 Z2].
+        apply Z.leb_le in Z1. apply Z.ltb_lt in Z2. split; assumption. }
+      unfold slice_sub.
+      rewrite (SliceProofs.slice_python (bound_idx sa) (bound_idx sb) _ (Z.of_nat (List.length l)) (small_arr_len l Hsm) (Hin sa Ha) (Hin sb Hb)).
+      + assert (Eo : forall t, opt (bound_idx t) = bopt t) by (intros [|c1 r1]; reflexivity). rewrite !Eo.
+        assert (Ec : py_slice (bopt sa) (bopt sb) (opt match sc with Some t => bound_idx t | None => {| number := 1; omitted := false |} end) (Z.of_nat (List.length l)) =
+                     py_slice (bopt sa) (bopt sb) (match sc with Some t => bopt t | None => None end) (Z.of_nat (List.length l))).
+        { destruct sc as [t|]; [rewrite Eo; reflexivity|reflexivity]. }
+        rewrite Ec. rewrite flat_map_flat_map. apply flat_map_ext'. intros i. destruct (nth_value l i); [|reflexivity].
+        cbn [flat_map fwd fst snd ext_loc]. rewrite app_nil_r. destruct next; reflexivity.
+      + destruct sc as [t|]; [apply Hin; exact Hc|cbn; unfold in64, two63; lia].
+  Qed.
+
+  (* every value a step reaches from a small value is small *)
+  Lemma nav1_small s p v : small v -> Forall (fun lv => small (snd lv)) (nav1 s (p, v)).
+  Proof.
+    intros Hsm. apply Forall_forall. intros [l x] Hin. cbn [snd].
+    assert (Hnav : forall s0, In (l, x) (match nav v s0 with Some y => [(p ++ [step_loc s0], y)] | None => [] end) -> small x).
+    { intros s0 H. destruct (nav v s0) as [y|] eqn:En; [|contradiction]. destruct H as [E|[]]. inversion E; subst.
+      destruct s0 as [q k|k|ds|d|sa sb sc]; cbn [nav] in En; destruct v; try discriminate En;
+        try (eapply small_obj_lookup; eassumption); try (eapply small_arr_in; [exact Hsm|eapply nth_value_in; exact En]). }
+    destruct s as [q k|k|ds|d|sa sb sc]; cbn [nav1 fst snd] in Hin; try (exact (Hnav _ Hin)).
+    - destruct v; try contradiction.
+      + apply in_map_iff in Hin. destruct Hin as [[i y] [E Hiy]]. inversion E; subst.
+        eapply small_arr_in; [exact Hsm|]. clear -Hiy. revert Hiy. generalize 0%Z. induction l0 as [|z zs IHz]; intros k Hiy; [contradiction|].
+        cbn [index_list] in Hiy. destruct Hiy as [E|Hiy]; [inversion E; left; reflexivity|right; exact (IHz _ Hiy)].
+      + apply in_flat_map in Hin. destruct Hin as [k [_ Hk]]. destruct (lookup m k) as [y|] eqn:El; [|contradiction].
+        destruct Hk as [E|[]]. inversion E; subst. eapply small_obj_lookup; eassumption.
+    - destruct v; try contradiction. apply in_flat_map in Hin. destruct Hin as [i [_ Hi]].
+      destruct (nth_value l0 i) as [y|] eqn:En; [|contradiction]. destruct Hi as [E|[]]. inversion E; subst.
+      eapply small_arr_in; [exact Hsm|eapply nth_value_in; exact En].
+  Qed.
+  Lemma nav1r_small x p v : small v -> Forall (fun lv => small (snd lv)) (nav1r x (p, v)).
+  Proof.
+    intros Hsm. destruct x as [s|s]; cbn [nav1r fst snd]; [apply nav1_small; exact Hsm|].
+    apply Forall_forall. intros lv Hin. apply in_flat_map in Hin. destruct Hin as [cu [Hcu Hlv]].
+    pose proof (containers_some v p Hsm) as Hc. rewrite Forall_forall in Hc. destruct (Hc cu Hcu) as [_ Hs].
+    pose proof (nav1_small s (cu_loc cu) (snd cu) Hs) as H. rewrite Forall_forall in H. exact (H lv Hlv).
   Qed.
 
   (* the nodes of one step with arbitrary basics, followed by next *)
@@ -156,55 +211,56 @@ Section ChainAddr.
     | RRec s => Node (KRec (fst (rec_flags s)) (snd (rec_flags s))) b1 (OSome (Node (step_kind s) b2 next))
     end.
 
-  Lemma sp_seg x b1 b2 next root p v : rstep_ok x = true ->
+  Lemma sp_seg x b1 b2 next root p v : rstep_ok x = true -> small v ->
     sp (seg x b1 b2 next) root (Some p, v) = flat_map (fwd b2 next root) (nav1r x (p, v)).
   Proof.
-    intros Hs. destruct x as [s|s]; cbn [seg nav1r rstep_ok] in *; [apply sp_step; exact Hs|].
+    intros Hs Hsm. destruct x as [s|s]; cbn [seg nav1r rstep_ok] in *; [apply sp_step; assumption|].
     cbn [fst snd].
     assert (E : sp (Node (KRec (fst (rec_flags s)) (snd (rec_flags s))) b1 (OSome (Node (step_kind s) b2 next))) root (Some p, v) =
                 flat_map (fun cu => sp (Node (step_kind s) b2 next) root cu) (containers (Some p) v)).
     { cbn [Spec.sp fst snd]. apply flat_map_ext'. intros [l x]. cbn [snd].
-      destruct s as [q k|k|ds|d]; cbn [rec_flags fst snd step_kind]; destruct x; reflexivity. }
+      destruct s as [q k|k|ds|d|sa sb sc]; cbn [rec_flags fst snd step_kind]; destruct x; reflexivity. }
     rewrite E. rewrite flat_map_flat_map. apply flat_map_ext_in'. intros cu Hin.
-    pose proof (containers_some v p) as Hc. rewrite Forall_forall in Hc. destruct (Hc cu Hin) as [l Hl].
+    pose proof (containers_some v p Hsm) as Hc. rewrite Forall_forall in Hc. destruct (Hc cu Hin) as [[l Hl] Hsx].
     destruct cu as [ol x]. cbn [fst snd] in *. subst ol. unfold cu_loc. cbn [fst snd].
-    apply sp_step. exact Hs.
+    apply sp_step; assumption.
   Qed.
 
   Lemma fin_pres x r : exists b1 b2, fin (pres cfg (x :: r)) = OSome (seg x b1 b2 (fin (pres cfg r))) /\ accessor b2 = cfg_accessor cfg.
   Proof.
     unfold pres. cbn [flat_map]. destruct x as [s|s]; cbn [rstep_pre app fin fst snd seg].
     - eexists (pre_basic cfg s), _. split; [reflexivity|]. reflexivity.
-    - eexists _, _. split; [reflexivity|]. destruct s as [q k|k|ds|[|]]; reflexivity.
+    - eexists _, _. split; [reflexivity|]. destruct s as [q k|k|ds|[|]|sa sb sc]; reflexivity.
   Qed.
   Lemma chain_node_seg x r : exists b1 b2, chain_node cfg (x :: r) = seg x b1 b2 (fin (pres cfg r)) /\ accessor b2 = cfg_accessor cfg.
   Proof.
     unfold chain_node, pres. cbn [flat_map]. destruct x as [s|s]; cbn [rstep_pre app fin fst snd seg].
     - eexists (pre_basic cfg s), _. split; [reflexivity|]. reflexivity.
-    - eexists _, _. split; [reflexivity|]. destruct s as [q k|k|ds|[|]]; reflexivity.
+    - eexists _, _. split; [reflexivity|]. destruct s as [q k|k|ds|[|]|sa sb sc]; reflexivity.
   Qed.
 
   Lemma sp_chain : forall r x b1 b2, forallb rstep_ok (x :: r) = true -> accessor b2 = cfg_accessor cfg ->
-    exists B, accessor B = cfg_accessor cfg /\ forall root p v,
+    exists B, accessor B = cfg_accessor cfg /\ forall root p v, small v ->
       sp (seg x b1 b2 (fin (pres cfg r))) root (Some p, v) =
       map (fun lv => (B, true, (Some (fst lv), snd lv))) (nav_all (x :: r) (p, v)).
   Proof.
     induction r as [|y r IH]; intros x b1 b2 Hs Hb; cbn [forallb] in Hs; apply andb_true_iff in Hs; destruct Hs as [H1 H2].
-    - exists b2. split; [exact Hb|]. intros root p v. change (fin (pres cfg [])) with ONone. rewrite sp_seg by exact H1.
+    - exists b2. split; [exact Hb|]. intros root p v Hsm. change (fin (pres cfg [])) with ONone. rewrite sp_seg by assumption.
       cbn [nav_all]. rewrite <- flat_map_single, flat_map_flat_map. apply flat_map_ext'. intros lv. reflexivity.
     - destruct (fin_pres y r) as (c1 & c2 & Ef & Hc). destruct (IH y c1 c2 H2 Hc) as (B & HB & Hsp).
-      exists B. split; [exact HB|]. intros root p v. rewrite Ef, sp_seg by exact H1.
-      cbn [nav_all]. rewrite map_flat_map'. apply flat_map_ext'. intros [l z]. unfold fwd. cbn [fst snd]. apply Hsp.
+      exists B. split; [exact HB|]. intros root p v Hsm. rewrite Ef, sp_seg by assumption.
+      cbn [nav_all]. rewrite map_flat_map'. apply flat_map_ext_in'. intros [l z] Hin. unfold fwd. cbn [fst snd]. apply Hsp.
+      pose proof (nav1r_small x p v Hsm) as Hn. rewrite Forall_forall in Hn. exact (Hn (l, z) Hin).
   Qed.
 
   Definition loc_result (lv : list pstep * value) : res :=
     if cfg_accessor cfg then RAcc true (Some (fst lv)) (snd lv) else RVal (snd lv).
 
-  Lemma spec_chain x r doc : forallb rstep_ok (x :: r) = true ->
+  Lemma spec_chain x r doc : forallb rstep_ok (x :: r) = true -> small doc ->
     spec_results ffun afun regex_match (chain_node cfg (x :: r)) doc = map loc_result (nav_all (x :: r) ([], doc)).
   Proof.
-    intros Hs. destruct (chain_node_seg x r) as (b1 & b2 & En & Hb). destruct (sp_chain r x b1 b2 Hs Hb) as (B & HB & Hsp).
-    unfold spec_results. rewrite En, Hsp. rewrite map_map. apply map_ext. intros [l z].
+    intros Hs Hsm. destruct (chain_node_seg x r) as (b1 & b2 & En & Hb). destruct (sp_chain r x b1 b2 Hs Hb) as (B & HB & Hsp).
+    unfold spec_results. rewrite En, Hsp by exact Hsm. rewrite map_map. apply map_ext. intros [l z].
     cbn [wrap fst snd]. rewrite HB. unfold loc_result. cbn [fst snd]. destruct (cfg_accessor cfg); reflexivity.
   Qed.
 
@@ -220,7 +276,7 @@ Section ChainAddr.
     intros Hs Hd Hok. exists (chain_node cfg (x :: r)).
     pose proof (parse_chain_path cfg parse_float regex_ok x r Hs) as Hp. split; [exact Hp|].
     pose proof (retrieve_end_to_end cfg parse_float regex_ok ffun afun regex_match ffun_small afun_small (chain_path (x :: r)) doc st Hd Hok) as H.
-    rewrite Hp in H. rewrite (spec_chain x r doc Hs) in H.
+    rewrite Hp in H. rewrite (spec_chain x r doc Hs Hd) in H.
     destruct (nav_all (x :: r) ([], doc)) as [|a l] eqn:En.
     - destruct (fst (eval_run (chain_node cfg (x :: r)) doc st)) as [rs|e|pn].
       + destruct H as [H1 [H2 _]]. contradiction (H2 H1).
@@ -235,7 +291,7 @@ Section ChainAddr.
   (* without wildcards and `..`: every node of the document is addressable by the path that spells its location *)
   Definition chain_result (steps : list kstep) (v : value) : res :=
     if cfg_accessor cfg then RAcc true (Some (map step_loc steps)) v else RVal v.
-  Definition no_wild (steps : list kstep) : bool := negb (existsb (fun s => match s with SWild _ => true | _ => false end) steps).
+  Definition no_wild (steps : list kstep) : bool := negb (existsb multi_step steps).
   Lemma plain_ok steps : forallb step_ok steps = true -> forallb rstep_ok (map RPlain steps) = true.
   Proof. induction steps as [|s r IH]; [reflexivity|]. cbn [forallb map rstep_ok]. intros H. apply andb_true_iff in H. destruct H as [H1 H2]. rewrite H1, IH by exact H2. reflexivity. Qed.
 
